@@ -154,6 +154,37 @@ def replay_monotone(desc):
     return 0
 
 
+def replay_default(desc):
+    import symx.harness as H
+    from symx import engine, formula
+    from symx.harness import quiet
+
+    shape = H.get_shape(desc["module"], desc["shape"])
+    w = desc["witness"]
+    res = {}
+    for explicit in (True, False):
+        with quiet():
+            pb = shape.declare_default(explicit)
+            probe = ps.SchedulingSolver(problem=pb)
+            probe.initialize()
+            consts, _ = formula.constants(list(probe._solver.assertions()))
+            k = 0
+            for n, v in (w.get("pins") or {}).items():
+                if "!" in n or n not in consts or "_maybe_busy_" in n or n.startswith(("Selected_", "constraint_", "Indicator_", "task_group_")):
+                    continue
+                if not isinstance(v, (bool, int)) or not (z3.is_int(consts[n]) or z3.is_bool(consts[n])) or z3.is_bool(consts[n]) != isinstance(v, bool):
+                    continue
+                ps.ConstraintFromExpression(name=f"__pin_{k}", expression=(consts[n] == (z3.BoolVal(v) if isinstance(v, bool) else v)))
+                k += 1
+            res[explicit] = bool(ps.SchedulingSolver(problem=pb).solve())
+        engine.reset_z3_globals()
+    print(f"replay: pinned schedule: argument given its documented default -> {res[True]}; argument left out -> {res[False]}")
+    if res[True] != res[False]:
+        print("CONFIRMED: leaving the argument out does not mean its documented default")
+        return 1
+    return 0
+
+
 def monotone_shapes(prop, tier, resource_rules):
     from checks import c01, c05
     classes = [c for c in c05._constraint_classes() if c != "ForceApplyNOptionalConstraints"]
@@ -238,13 +269,13 @@ def default_shape(prop, cname, arg, value, other):
         c2, _ = formula.constants(ctx.phi)
         shared = [c for n, c in c2.items() if n in c1 and "_maybe_busy_" not in n]
         return [Ob(f"{prop}/{name}/omitted_admits_what_the_explicit_default_admits", "complete", valid=And(buffer_witness(list(ctx.phi_e))), observables=shared,
-                   phi=list(ctx.phi), transform=buffer_witness, twin=buffer_witness(list(ctx.phi_e)), replayer="checks.c03:replay_monotone", extra={"lost_in": "omitted"}),
+                   phi=list(ctx.phi), transform=buffer_witness, twin=buffer_witness(list(ctx.phi_e)), replayer="checks.c03:replay_default"),
                 Ob(f"{prop}/{name}/omitted_admits_nothing_more", "complete", valid=And(buffer_witness(list(ctx.phi))), observables=shared,
-                   phi=list(ctx.phi_e), transform=buffer_witness, twin=buffer_witness(list(ctx.phi)), replayer="checks.c03:replay_monotone", extra={"lost_in": "explicit"})]
+                   phi=list(ctx.phi_e), transform=buffer_witness, twin=buffer_witness(list(ctx.phi)), replayer="checks.c03:replay_default")]
 
     sh = Shape(name, build, obligations)
     sh.grid = False
-    sh.declare = lambda with_y: declare(not with_y)  # replay_monotone: False = reference (explicit default), True = argument omitted
+    sh.declare_default = declare
     from symx.harness import crash_obligations
     sh.on_exception = crash_obligations(prop, name, "symx.harness:replay_build_crash", "a well-formed problem cannot be built and initialised")
     return sh
